@@ -10,8 +10,8 @@ NumPairs == {<<"int", "int">>, <<"uint", "float">>, <<"int", "float">>, <<"float
 NumPairs3 == {<<"int", "int">>, <<"int", "float">>, <<"float", "float">>}
 
 (* LINEAR *)
-LoLims == {Absent, Lim("CLOSED", 0), Lim("OPEN", 0), Lim("none", 2), Lim("INFINITE", 0)}
-HiLims == {Absent, Lim("CLOSED", 10), Lim("OPEN", 10), Lim("none", 9), Lim("INFINITE", 0)}
+LoLims == {Absent, Lim("CLOSED", 0), Lim("OPEN", 0), Lim("none", 2), Lim("INFINITE", 0), Lim("INFINITEV", 5)}
+HiLims == {Absent, Lim("CLOSED", 10), Lim("OPEN", 10), Lim("none", 9), Lim("INFINITE", 0), Lim("INFINITEV", 5)}
 LinScale(lo, hi, v0, v1, d) == [S(lo, hi, <<v0, v1>>, <<d>>) EXCEPT !.civ = IF v1 = 0 THEN 7 ELSE NONE]
 LinFam(V0, V1, D, Lo, Hi, Pairs) ==
     {CM("LINEAR", tp[1], tp[2], <<LinScale(lo, hi, v0, v1, d)>>) :
@@ -69,8 +69,8 @@ TextFam == {[CM("TEXTTABLE", it, "text", sc) EXCEPT !.dflt = d, !.dfltinv = di] 
 Simple == {CM("IDENTICAL", "int", "int", <<>>), CM("IDENTICAL", "uint", "uint", <<>>), CM("IDENTICAL", "float", "float", <<>>),
            CM("COMPUCODE", "int", "int", <<>>)}
 
-FamQuick == LinFam({0, 5}, {-2, 0, 1, 3}, {1, 2}, {Absent, Lim("CLOSED", 0), Lim("OPEN", 0)},
-                   {Absent, Lim("CLOSED", 10), Lim("OPEN", 10), Lim("INFINITE", 0)}, NumPairs)
+FamQuick == LinFam({0, 5}, {-2, 0, 1, 3}, {1, 2}, {Absent, Lim("CLOSED", 0), Lim("OPEN", 0), Lim("INFINITEV", 5)},
+                   {Absent, Lim("CLOSED", 10), Lim("OPEN", 10), Lim("INFINITE", 0), Lim("INFINITEV", 5)}, NumPairs)
             \cup LinNoDen \cup ScaleLin2(NumPairs3) \cup Tab3(TabPairs) \cup RatFam(NumPairs3) \cup TextFam \cup Simple
 FamThorough == LinFam({-3, 0, 5}, {-2, 0, 1, 3}, {1, 2, 3}, LoLims, HiLims, NumPairs)
             \cup LinNoDen \cup ScaleLin2(NumPairs3) \cup ScaleLin3(NumPairs3) \cup Tab3(TabPairs) \cup Tab4({<<"int", "int">>, <<"int", "float">>})
